@@ -88,6 +88,7 @@ type chainCase struct {
 	hookArgs               [][2]any
 	sealed                 bool   // every delegation goes through ToSealed / FromSealed before it is loaded
 	warm                   bool   // a first ExecutionAllowed with every delegation loadable precedes the observed call
+	cold                   int    // k+1: a first ExecutionAllowed whose loader lacks proof k (and so fails) precedes the observed call
 	invExpAbs              *int64 // absolute expiration of the invocation in Unix seconds
 	argsSplit              bool   // the first argument is given by WithArgument, then all of them (the first with a decoy value) by WithArguments
 	invSealed              bool   // the invocation goes through ToSealed / FromSealed before the check
@@ -309,6 +310,16 @@ func (e *chainEnv) run(tag string, cc chainCase) {
 	_ = panicked
 	if cc.warm {
 		_ = inv.ExecutionAllowed(full)
+	}
+	if cc.cold > 0 {
+		partial := mapLoader{}
+		for ci, t := range ld {
+			if !ci.Equals(fakeCid(cc.cold - 1)) {
+				partial[ci] = t
+			}
+		}
+		_ = inv.ExecutionAllowed(partial)
+		_ = inv.ExecutionAllowedWithArgsHook(partial, func(a args.ReadOnly) (*args.Args, error) { return a.WriteableClone(), nil })
 	}
 	switch cc.hook {
 	case 0:
@@ -726,6 +737,29 @@ func genChain(c *Ctx) {
 			links2 := append([]link{}, links...)
 			links2[miss].missing = true
 			e.run("chain/second-call-missing", chainCase{invIss: 0, invSub: L, invAud: -1, cmd: "/a", args: stdArgs, links: links2, warm: true})
+		}
+	}
+
+	// ---- 3e1b. the other way round: the first call fails because a delegation is not there yet, the observed call can load
+	// them all - its decision is that of the whole chain (policies of the delegations that arrived late included)
+	{
+		ps, fs := passStmts(), failStmts()
+		for L := 2; L <= 3; L++ {
+			for late := 0; late < L; late++ {
+				for bad := -1; bad < L; bad++ {
+					links := make([]link, L)
+					for k := 0; k < L; k++ {
+						links[k] = link{iss: k + 1, aud: k, sub: L, cmd: "/", pol: []pstmt{ps[k%len(ps)]}}
+						if k == L-1 {
+							links[k].iss = L
+						}
+						if k == bad {
+							links[k].pol = []pstmt{ps[0], fs[(k+late)%len(fs)]}
+						}
+					}
+					e.run("chain/retry-after-missing", chainCase{invIss: 0, invSub: L, invAud: -1, cmd: "/a", args: stdArgs, links: links, cold: late + 1})
+				}
+			}
 		}
 	}
 
